@@ -95,6 +95,23 @@ pub fn check_lossless(
     if usize::from(root.text_range().end()) != text.len() {
         return Err(("root-end-differs".into(), format!("{:?} vs {}", root.text_range(), text.len())));
     }
+    // "Leaf tokens in document order" is also what `first_token()` / `next_token()` enumerate - the walk
+    // the repository's own features use (semantic highlighting, trivia skipping). It must reach every
+    // leaf: an empty node between two tokens cuts that chain although the tree holds every byte.
+    let mut chained = 0usize;
+    let mut end = 0usize;
+    let mut tok = root.first_token();
+    while let Some(t) = tok {
+        chained += 1;
+        end = usize::from(t.text_range().end());
+        tok = t.next_token();
+    }
+    if chained != stats.tokens {
+        return Err((
+            "token-chain-cut".into(),
+            format!("first_token()/next_token() reaches {chained} of {} leaf tokens and stops at offset {end} of {}", stats.tokens, text.len()),
+        ));
+    }
     Ok(stats)
 }
 
